@@ -35,6 +35,9 @@ import (
 
 type cmdResult struct {
 	name string // wire command name, e.g. "UID FETCH"
+	// also: further wire commands the same call stands for (the COPY + STORE + EXPUNGE a Move turns
+	// into on a server without MOVE); success of the call needs the completion of all of them
+	also []string
 	err  error
 	done bool
 }
@@ -52,8 +55,8 @@ func (x *ctx) enter(call string) { x.mu.Lock(); x.current = call; x.mu.Unlock() 
 func (x *ctx) leave()            { x.mu.Lock(); x.current = ""; x.mu.Unlock() }
 
 // issue records that a command was just sent (in issue order).
-func (x *ctx) issue(name string) *cmdResult {
-	r := &cmdResult{name: name}
+func (x *ctx) issue(name string, also ...string) *cmdResult {
+	r := &cmdResult{name: name, also: also}
 	x.mu.Lock()
 	x.cmds = append(x.cmds, r)
 	x.mu.Unlock()
@@ -85,12 +88,17 @@ type scenario struct {
 	// peer, if set, replaces the real server by a scripted one: it returns the
 	// bytes to send in answer to a command line (tag, upper-cased name, whole line).
 	peer func(tag, name, line string) string
+	// greeting of the scripted peer, when not the default one
+	greeting string
 }
 
 // servePeer runs a scripted server on the given endpoint.
-func servePeer(conn net.Conn, respond func(tag, name, line string) string) {
+func servePeer(conn net.Conn, greeting string, respond func(tag, name, line string) string) {
 	br := bufio.NewReader(conn)
-	conn.Write([]byte("* OK [CAPABILITY IMAP4rev1 IMAP4rev2 LITERAL- IDLE MOVE UIDPLUS] scripted server ready\r\n"))
+	if greeting == "" {
+		greeting = "* OK [CAPABILITY IMAP4rev1 IMAP4rev2 LITERAL- IDLE MOVE UIDPLUS] scripted server ready\r\n"
+	}
+	conn.Write([]byte(greeting))
 	for {
 		line, err := br.ReadString('\n')
 		if err != nil {
@@ -302,6 +310,40 @@ func scriptedScenarios() []scenario {
 				return selectResp(tag)
 			case "FETCH":
 				return "* 1 FETCH (BINARY[1] ~{11}\r\nhello\x00world FLAGS (\\Seen))\r\n* 2 FETCH (FLAGS () BINARY[1] {26}\r\nabcdefghijklmnopqrstuvwxyz)\r\n* 3 FETCH (BINARY[1] \"quoted\" FLAGS (\\Deleted))\r\n" + tag + " OK fetched\r\n"
+			case "LOGOUT":
+				return "* BYE\r\n" + tag + " OK\r\n"
+			}
+			return tag + " OK\r\n"
+		}},
+		{name: "scripted-move-without-move-extension", greeting: "* OK [CAPABILITY IMAP4rev1 LITERAL- IDLE UIDPLUS] scripted server without MOVE ready\r\n", run: func(x *ctx) {
+			// a Move on a server that has no MOVE is COPY + STORE + EXPUNGE: its success is the
+			// completion of the three
+			login(x)
+			mv := x.c.Move(imap.SeqSetNum(1, 2), "Other")
+			r := x.issue("COPY", "STORE", "EXPUNGE")
+			x.wait(r, "Move.Wait", func() error { _, err := mv.Wait(); return err })
+			mv = x.c.Move(imap.UIDSetNum(103), "Other")
+			r = x.issue("UID COPY", "UID STORE", "UID EXPUNGE")
+			x.wait(r, "Move.Wait", func() error { _, err := mv.Wait(); return err })
+			n := x.c.Noop()
+			r = x.issue("NOOP")
+			x.wait(r, "Noop.Wait", n.Wait)
+			r = x.issue("LOGOUT")
+			x.wait(r, "Logout.Wait", x.c.Logout().Wait)
+		}, peer: func(tag, name, line string) string {
+			switch name {
+			case "SELECT":
+				return selectResp(tag)
+			case "COPY":
+				return tag + " OK [COPYUID 9 101:102 1:2] copied\r\n"
+			case "UID COPY":
+				return tag + " OK [COPYUID 9 103 3] copied\r\n"
+			case "STORE", "UID STORE":
+				return tag + " OK stored\r\n"
+			case "EXPUNGE":
+				return "* 1 EXPUNGE\r\n* 1 EXPUNGE\r\n" + tag + " OK expunged\r\n"
+			case "UID EXPUNGE":
+				return "* 1 EXPUNGE\r\n* 0 EXISTS\r\n" + tag + " OK expunged\r\n"
 			case "LOGOUT":
 				return "* BYE\r\n" + tag + " OK\r\n"
 			}
@@ -694,7 +736,7 @@ func runPeer(w *hx.W, sc *scenario, f fault, desc, sigBase string) runResult {
 	log := &vconn.Log{}
 	cEnd, sEnd := vconn.Pipe("client", "server", log)
 	armFault(cEnd, f)
-	go servePeer(sEnd, sc.peer)
+	go servePeer(sEnd, sc.greeting, sc.peer)
 	defer sEnd.Close()
 	return drive(w, sc, f, desc, sigBase, cEnd, log)
 }
@@ -809,33 +851,36 @@ func drive(w *hx.W, sc *scenario, f fault, desc, sigBase string, cEnd *vconn.Con
 		cmds := append([]*cmdResult(nil), x.cmds...)
 		x.mu.Unlock()
 		si := 0
+	cmdLoop:
 		for _, cr := range cmds {
-			// find the next sent command with this name
-			tag := ""
-			for si < len(sent) {
-				s := sent[si]
-				si++
-				if s.name == cr.name {
-					tag = s.tag
-					break
-				}
-			}
-			if tag == "" {
-				break
-			}
-			if cr.done && cr.err == nil {
-				line := []byte(tag + " OK")
-				i := bytes.Index(delivered, line)
-				complete := false
-				if i >= 0 {
-					if j := bytes.Index(delivered[i:], []byte("\r\n")); j >= 0 {
-						complete = true
+			for _, wireName := range append([]string{cr.name}, cr.also...) {
+				// find the next sent command with this name
+				tag := ""
+				for si < len(sent) {
+					s := sent[si]
+					si++
+					if s.name == wireName {
+						tag = s.tag
+						break
 					}
 				}
-				if !complete {
-					w.Violation(fmt.Sprintf("success-without-completion@%s/%s", sigBase, cr.name),
-						fmt.Sprintf("%s: %s (%s) reported success but its tagged OK line was not fully delivered before the cut (client read %d bytes: ...%s)", desc, cr.name, tag, res.nIn, hx.Hex(tail(delivered, 80), 200)),
-						map[string]interface{}{"case": desc, "command": cr.name, "tag": tag})
+				if tag == "" {
+					break cmdLoop
+				}
+				if cr.done && cr.err == nil {
+					line := []byte(tag + " OK")
+					i := bytes.Index(delivered, line)
+					complete := false
+					if i >= 0 {
+						if j := bytes.Index(delivered[i:], []byte("\r\n")); j >= 0 {
+							complete = true
+						}
+					}
+					if !complete {
+						w.Violation(fmt.Sprintf("success-without-completion@%s/%s", sigBase, wireName),
+							fmt.Sprintf("%s: %s (%s) reported success but its tagged OK line was not fully delivered before the cut (client read %d bytes: ...%s)", desc, wireName, tag, res.nIn, hx.Hex(tail(delivered, 80), 200)),
+							map[string]interface{}{"case": desc, "command": wireName, "tag": tag})
+					}
 				}
 			}
 		}
